@@ -1,18 +1,20 @@
 META = {
     "C05": dict(
-        technique="contract-based deductive verification (AST->VC, loop invariants, z3+cvc5) of the real tabparser functions; bounded run-time contract as stand-in for parse_to_tree",
-        text="proof: _parse_indent, _filtered_lines, _parsed_indents, _stripped_indents and _stacked are proved equal to the column-stack "
-             "offside reference (every line sequence, every indentation, unbounded), including ParserError raised iff and where the "
-             "reference errs; parse_to_tree's final nested-dict insertion and the equivalence of the column-stack reference with the "
-             "'nearest preceding line with smaller indentation' wording are covered by the bounded layer only (exhaustive to 5/6 lines).",
-        note="trusted: Python semantics assumptions A1,A7,A8,A9,A10; z3/cvc5; the opaque str.strip; parse_to_tree cursor loop bounded only",
+        technique="contract-based deductive verification (AST->VC, loop invariants, lemmas by induction, z3+cvc5) of the real tabparser functions incl. parse_to_tree; bounded run-time contracts beside it",
+        text="proof: _parse_indent, _filtered_lines, _parsed_indents, _stripped_indents, _stacked and parse_to_tree are proved equal to the "
+             "column-stack offside reference (every line sequence, every indentation, unbounded), including ParserError raised iff and "
+             "where the reference errs and the nested-dict insertion (the `cur` alias modelled as a (root, path) cursor). The equivalence of "
+             "the column-stack reference with the 'nearest preceding line with smaller indentation' wording is covered by the bounded "
+             "layer only (exhaustive to 5/6 lines).",
+        note="trusted: Python semantics assumptions A1,A7,A8,A9,A10,A13; z3/cvc5; the opaque str.strip / str.split",
     ),
     "C18": dict(
         technique="run-time contracts evaluated exhaustively over the finite configuration space (bounded stand-in; no deductive obligations: Mako rendering, importlib and regex compilation are outside the VC subset)",
         text="exploration, exhaustive over the finite space: for every devdb sequence (model string synthesised per regex chain) x software-version "
              "shapes x every vendor's canonical hardware: true sequences prefix-closed, vendor = unique most specific one under 28 registration "
              "orders, get_rulebook renders/compiles/resolves every %logic function, two fresh providers give structurally equal rulebooks. "
-             "Registry.match and find_true_sequences are not under a discharged contract yet.",
+             "Registry.match is also asked during registration and after __add__. "
+             "Registry.match and find_true_sequences are not under a discharged contract.",
         note="bounded stand-in only; synthesised model strings are one per sequence; known finding: ambiguous short-name alias SN",
     ),
 }
@@ -24,10 +26,10 @@ META.update({
         text="exploration + proved links: each common logic function is proved equal to its spec for every bucket set; lemmas prove that "
              "executing its commands on a (rule,key) slot turns the old row into the new one under make_pre's bucket invariant (default, "
              "ordered, undo_redo; rewrite/ignore_changes except in their by-design cases), that removal precedes re-creation, and that the depth "
-             "at which cmd_paths sends a command equals the depth at which patch() shows it. The composition through make_diff/make_pre/"
+             "at which cmd_paths sends a command equals the depth at which patch() shows it; make_pre is proved equal to its grouping spec. The composition through make_diff/"
              "make_patch is NOT proved: end-to-end convergence, second diff empty and chains are decided by the bounded layer "
              "(8 rulebook families x 5 vendors x pairs/chains of small trees, device simulator from the statement). 12 known findings.",
-        note="make_diff, make_pre, make_patch, get_order not under discharged contracts; device semantics for %rewrite/%ordered from DESIGN.md",
+        note="make_diff, make_patch, get_order not under discharged contracts; device semantics for %rewrite/%ordered from DESIGN.md",
     ),
     "C02": dict(
         technique="contract-based deductive verification of apply_acl_diff / apply_acl (AST->VC with ADT lists/dicts, z3) relative to the assumed matcher contract + lemmas (no undeletable row stays REMOVED; negations only from REMOVED/MOVED buckets); " + _B,
@@ -39,12 +41,15 @@ META.update({
         note="relative to the opaque matcher; make_patch not under contract",
     ),
     "C03": dict(
-        technique="contract-based deductive verification of strip_unchanged / mark_unchanged (AST->VC with ADT lists, z3) + idempotence lemma; " + _B + " for the diff construction and the text renderings",
-        text="exploration + proved links: strip_unchanged and mark_unchanged are proved equal to their specs for every diff (any length, any depth); "
+        technique="contract-based deductive verification of base_diff / default_diff / ordered_diff / _ignore_case and strip_unchanged / mark_unchanged (AST->VC with ADT lists and dicts, z3+cvc5) + lemmas (ops exact, strip idempotent); " + _B + " for the whole diff construction and the text renderings",
+        text="exploration + proved links: base_diff (hence default_diff, ordered_diff) is proved equal to its spec for every level (REMOVED rows "
+             "of old absent from new at their old index; rows of new ADDED iff absent from old, else MOVED / parent's op by the index rule; "
+             "merged by the index sort), with lemmas: removed only if absent from new, added iff absent from old, nothing removed when all rows "
+             "stay. strip_unchanged and mark_unchanged are proved equal to their specs for every diff (any length, any depth); "
              "strip is idempotent (lemma). Reconstruction (proj_old/proj_new), exact ops, self-diff empty, MOVED, formatter.diff and "
              "gen_pre_as_diff read-back: bounded layer over 7 real compiled rulebooks x all pairs of small trees (depth<=2/3) x 14 vendor "
              "formatters. 4 known findings (MOVED by index, old order of MOVED rows, unchanged %rewrite groups absent).",
-        note="base_diff, call_diff_logic, apply_diff_rb, make_diff not under discharged contracts",
+        note="call_diff_logic (assumed contract), apply_diff_rb, make_diff, rewrite_diff, the %ignore_case branch: bounded only; list.sort opaque (A3)",
     ),
     "C04": dict(
         technique="contract-based deductive verification of the indentation parse chain (shared with C05); " + _B + " for every vendor's join/split round trip",
@@ -81,17 +86,18 @@ META.update({
     "C09": dict(
         technique="contract-based deductive verification of common.apply (loop-free: complete path enumeration, z3+cvc5) and lemma no_commit_when_disabled; " + _B + " for flattening and deploy rule parameters",
         text="exploration + proved links: common.apply is proved equal to the pinned per-vendor session table for all hardware flags (hierarchy axiom "
-             "as precondition) and the no-commit-when-disabled lemma is proved over it. patch()/cmd_paths agreement, block exits, "
+             "as precondition) and the no-commit-when-disabled lemma is proved over it; cmd_paths and _indent_blocks are proved relative "
+             "to the assumed token-stream contract of blocks_and_context (sent depth == shown depth lemma). patch()/cmd_paths agreement end to end, block exits, "
              "apply_deploy_rulebook body and per-rule timeouts: bounded layer (PatchTrees depth<=4, 12 hardware models, corpus). 3 known findings "
              "(cmd_paths dict collapses repeated commands).",
-        note="formatter flattening and apply_deploy_rulebook bounded only",
+        note="blocks_and_context assumed; apply_deploy_rulebook bounded only",
     ),
     "C10": dict(
         technique="contract-based deductive verification of apply_acl (strict mode raises iff uncovered: lemma strict_iff_uncovered) relative to the assumed matcher contract; " + _B,
         text="exploration + proved links: apply_acl(fatal_acl=True) raises AclError iff the spec finds an uncovered row at a covered parent (proved, "
              "relative to the opaque matcher). Generator programs through the real _run_partial_generator/_old_new_per_device, exclusivity and "
              "union: bounded layer (random programs <=6 statements, depth<=3). 1 known finding (reverse row of an undeletable rule vanishes).",
-        note="merge_dicts, match_row_to_acl(exclusive) and TreeGenerator bookkeeping are not under discharged contracts",
+        note="match_row_to_acl's exclusivity iff is proved relative to _find_acl_matches / merge_dicts (assumed); TreeGenerator bookkeeping bounded only",
     ),
     "C11": dict(
         technique=_B + "; no deductive obligations (collapse/expand and _process_vlandb use sorted(set()), string rendering and chunk comprehensions outside the VC subset)",
@@ -108,7 +114,7 @@ META.update({
              "functions are proved independent of the unchanged bucket. The two real front ends are compared on the shipped corpus, its cross "
              "products and random trees. 1 fixed (file mode stripped before make_pre), 3 known findings (logic functions that read UNCHANGED, "
              "latent since the fix).",
-        note="make_pre/make_patch reduction lemmas not proved",
+        note="make_pre proved against its grouping spec; make_patch reduction lemmas not proved",
     ),
     "C17": dict(
         technique="contract-based deductive verification of implicit.config (AST->VC, nested loops, comprehension; z3+cvc5) + lemmas on the logic functions (an unchanged-only bucket emits nothing); " + _B,
@@ -152,7 +158,8 @@ META.update({
         technique="frame / effect obligations inferred from the real source (modular syntactic effect analysis) for all 55 shipped logic functions and the diff/patch path; frame obligations of the proved contracts; " + _B + " for cross-history equality",
         text="exploration + proved frames: every shipped %logic function mutates at most rule/diff, every %diff_logic at most old/new/diff_pre, none "
              "writes module state; make_diff, apply_acl(_diff), mark/strip_unchanged, make_pre, order_config, get_order modify none of their "
-             "arguments (except the declared ACL scratch field). Result equality after arbitrary job histories vs a fresh interpreter, "
+             "arguments (except the declared ACL scratch field); Orderer.insert / ref_insert only rebind their own attributes (no write into "
+             "the provider-cached ordering rulebook). Result equality after arbitrary job histories vs a fresh interpreter, "
              "snapshots of old/new/rulebook: bounded layer (corpus + synthetic mutating logics).",
         note="effect inference is an upper bound with a fixed purity table for non-annet callees; caches not modelled deductively",
     ),
